@@ -6,6 +6,7 @@ package main
 // must behave exactly as without the limit.
 
 import (
+	"math"
 	"bytes"
 	"encoding/json"
 	"fmt"
@@ -114,7 +115,9 @@ func judgeC25(c c25Case) []Violation {
 			bad("file-exceeds-limit:"+o.Kind, fmt.Sprintf("%s made %s %d bytes long", o.Kind, p, len(after)))
 		}
 		if over {
-			if !rl.NoHandle && !rl.Res.Bad && rl.Res.Status != nfsErrFbig {
+			// a size that does not even fit the protocol's signed 64-bit file sizes may also be refused as invalid (SETATTR / CREATE)
+			invalidSize := o.Kind != "write" && newEnd > math.MaxInt64 && rl.Res.Status == 22
+			if !rl.NoHandle && !rl.Res.Bad && rl.Res.Status != nfsErrFbig && !invalidSize {
 				bad("over-limit-status:"+o.Kind, fmt.Sprintf("%s to %d bytes replied %d, want NFS3ERR_FBIG", o.Kind, newEnd, rl.Res.Status))
 			}
 			if existed && !bytes.Equal(before, after) {
@@ -162,7 +165,7 @@ func genC25(rng *rand.Rand, n int) c25Case {
 		case 3:
 			return uint64(c.Max) + uint64(rng.Intn(100))
 		case 4:
-			return 1 << 40
+			return []uint64{1 << 40, 1 << 62, 1<<63 - 1, 1 << 63, 1<<63 + 100, 1<<64 - 4096}[rng.Intn(6)]
 		}
 		return uint64(rng.Int63n(c.Max + 1))
 	}
